@@ -221,7 +221,7 @@ def check_scenario(sc, ev=None, scratch=None, only_k=None):
                     raise Violation(f"{at}: after recovery the path {p} loads {v!r} ({st}), expected {want!r}", dict(sc, k=k))
             if ev is not None:
                 ev.case({"start": sc["start"], "cache": cache, "boundary": k, "op": list(trace[k]), "of": n,
-                         "program": c01.slim({"prog": prog, "store": None, "steps": []})["program"] if k == 1 else "(same program)"},
+                         "program": c01.slim({"prog": prog, "store": None, "steps": []})["program"] if len(ev.samples) < 3 else "(omitted)"},
                         first_mut < k <= last_mut, features=["start:" + sc["start"], "killed-before:" + trace[k][0].split(".")[0].split(":")[0]]
                         + (["cache"] if cache else []), key=[M.pkey(prog), sc["start"], cache, style, k])
         if ev is not None:
